@@ -228,6 +228,8 @@ def run(ck):
     extra = [-2 ** 31, -2 ** 31 + 1, -100000, -1000, -201, 1000, 1001, 1234, 99999, 2 ** 31 - 2, 2 ** 31 - 1]
     extra += [rnd.randint(-2 ** 31, 2 ** 31 - 1) for _ in range(50 if quick else 2000)]
     extra += [rnd.randint(-3000, 3000) for _ in range(50 if quick else 2000)]
+    if not quick:                                   # every 16-bit code
+        extra += list(range(-32768, -200)) + list(range(1000, 32768))
     rc, lines, err = run_lines([exe, 'pred', '-200', '999'] + [str(x) for x in extra])
     pred_impl = [l for l in lines if l.startswith('pred ')]
     codes = [int(l.split(' ')[1]) for l in pred_impl]
